@@ -73,6 +73,11 @@ let thick_walk a b c d w : string =
     string_of_int !n ^ " " ^ !first ^ " " ^ !last ^ " " ^ string_of_int !h
 
 let init () =
+  register "line_with_delta" (function
+    | [a; b; c; d] ->
+      let l = Line.with_delta (pt a b) (pt c d) in
+      cpt l.Line.l_start ^ " " ^ cpt l.Line.l_end ^ " " ^ cpt (Line.line_delta l)
+    | _ -> "BAD-ARGS");
   register "thick_walk" (function
     | [a; b; c; d; w] -> thick_walk a b c d w
     | _ -> "BAD-ARGS");
